@@ -250,6 +250,105 @@ Fixpoint brun (v : variant) (s : bstate) (ops : list bop) : bstate * list (optio
 Definition bstart (cap base : N) : bstate := mkB cap base 0 [].
 
 (* ------------------------------------------------------------------------------------------- *)
+(* FixedCapacityMemoryPool (src/memory/fixed_capacity_pool.rs)                                 *)
+(* ------------------------------------------------------------------------------------------- *)
+(* total_blocks blocks of max_block_size bytes, back to back; one free list per size class (stack of block
+   offsets, threaded through the 16-byte BlockHeader of the free blocks); initially every block is on the list of
+   the largest class; allocate(size) pops the list of the request's class or, if that is empty, the first
+   non-empty list of a larger class ("splitting" hands out the whole block); the RAII guard pushes the block on
+   the list of the class it was requested under. *)
+Fixpoint gen_classes (fuel : nat) (cur max align : N) : list N :=
+  match fuel with
+  | O => []
+  | S f =>
+      if cur <=? max then
+        let nxt := if cur <? 128 then cur + align else if cur <? 1024 then cur * 3 / 2 else cur * 2 in
+        cur :: gen_classes f (align_up nxt align) max align
+      else []
+  end.
+Definition size_classes (max align : N) : list N :=
+  let c := gen_classes 200 align max align in
+  match c with
+  | [] => [max]
+  | _ => if last c 0 =? max then c else c ++ [max]
+  end.
+
+Record fpool := mkF { fstride : N; fnblocks : N; fclasses : list N; flists : list (list N) }.
+Fixpoint blocks_from (n : nat) (i stride : N) : list N :=
+  match n with O => [] | S m => i * stride :: blocks_from m (i + 1) stride end.
+Definition finit (max align nblocks : N) : fpool :=
+  let cls := size_classes max align in
+  mkF max nblocks cls (repeat [] (length cls - 1) ++ [blocks_from (N.to_nat nblocks) 0 max]).
+
+Fixpoint first_nonempty (i : nat) (ls : list (list N)) : option nat :=
+  match ls with
+  | [] => None
+  | l :: t => match i with
+              | O => match l with [] => option_map S (first_nonempty O t) | _ => Some O end
+              | S j => option_map S (first_nonempty j t)
+              end
+  end.
+
+(* allocate(size): Some (offset, class index recorded in the guard) or None = Err *)
+Definition falloc (p : fpool) (size : N) : option (N * nat) * fpool :=
+  if (size =? 0) || (fstride p <? size) then (None, p) else
+  match bin_of_go (fclasses p) 0 size with
+  | None => (None, p)
+  | Some k =>
+      match first_nonempty k (flists p) with
+      | None => (None, p)
+      | Some j =>
+          match nth j (flists p) [] with
+          | off :: rest => (Some (off, k), mkF (fstride p) (fnblocks p) (fclasses p) (upd j rest (flists p)))
+          | [] => (None, p)
+          end
+      end
+  end.
+(* Drop of the guard: deallocate(ptr, size_class_index) *)
+Definition ffree (p : fpool) (off : N) (k : nat) : fpool :=
+  mkF (fstride p) (fnblocks p) (fclasses p) (upd k (off :: nth k (flists p) []) (flists p)).
+
+Record fstate := mkFS { fp : fpool; flive : list (N * nat) }.
+Inductive fop := FAlloc (size : N) | FFree (k : N).
+Definition fstep (s : fstate) (o : fop) : fstate * option Z :=
+  match o with
+  | FAlloc size =>
+      match falloc (fp s) size with
+      | (Some (off, k), p') => (mkFS p' (flive s ++ [(off, k)]), Some (Z.of_N off))
+      | (None, p') => (mkFS p' (flive s), None)
+      end
+  | FFree k =>
+      match flive s with
+      | [] => (s, Some 0%Z)
+      | _ => let i := N.to_nat (k mod nlen (flive s)) in
+             let '(off, c) := nth i (flive s) (0, O) in
+             (mkFS (ffree (fp s) off c) (remove_nth i (flive s)), Some 0%Z)
+      end
+  end.
+Fixpoint frun (s : fstate) (ops : list fop) : fstate * list (option Z) :=
+  match ops with
+  | [] => (s, [])
+  | o :: t => let '(s1, r) := fstep s o in let '(s2, rs) := frun s1 t in (s2, r :: rs)
+  end.
+Definition fstart (max align nblocks : N) : fstate := mkFS (finit max align nblocks) [].
+
+(* allocation results of the fixed-capacity pool relative to the first successful allocation *)
+Fixpoint fnormalise (base : Z) (ops : list fop) (rs : list (option Z)) : list (option Z) :=
+  match ops, rs with
+  | FAlloc _ :: ot, r :: rt => (match r with Some z => Some (z - base)%Z | None => None end) :: fnormalise base ot rt
+  | FFree _ :: ot, r :: rt => r :: fnormalise base ot rt
+  | _, _ => []
+  end.
+Fixpoint ffirst (ops : list fop) (rs : list (option Z)) : Z :=
+  match ops, rs with
+  | FAlloc _ :: _, Some z :: _ => z
+  | _ :: ot, _ :: rt => ffirst ot rt
+  | _, _ => 0%Z
+  end.
+Definition fobserve (mx al nb : N) (ops : list fop) : list (option Z) :=
+  let rs := snd (frun (fstart mx al nb) ops) in fnormalise (ffirst ops rs) ops rs.
+
+(* ------------------------------------------------------------------------------------------- *)
 (* what the harness-generated case files evaluate                                              *)
 (* ------------------------------------------------------------------------------------------- *)
 Definition eqb_oz (a b : option Z) : bool :=
@@ -268,9 +367,12 @@ Fixpoint eqb_ln' (a b : list N) : bool :=
   end.
 Inductive case_t :=
 | CLf (impl_bins : list N) (m : N) (ops : list op) (expect : list (option Z))
-| CBump (cap base : N) (ops : list bop) (expect : list (option Z)).
+| CBump (cap base : N) (ops : list bop) (expect : list (option Z))
+| CFc (max align nblocks : N) (ops : list fop) (expect : list (option Z)).
 Definition ok (c : case_t) : bool :=
   match c with
   | CLf ib m ops e => eqb_ln' ib FAST_BIN_SIZES && eqb_loz (observe Fixed m ops) e
   | CBump cap base ops e => eqb_loz (snd (brun Fixed (bstart cap base) ops)) e
+  | CFc mx al nb ops e => eqb_loz (fobserve mx al nb ops) e
   end.
+
